@@ -208,11 +208,12 @@ func runC03(a *Args) error {
 	rng := NewRng(a.Seed)
 	prelude := "From NV Require Import Base C03_Model.\nOpen Scope string_scope.\n"
 	w := NewCaseWriter(a, "C03", prelude, "case", "run")
-	w.Rule = "placements of the signing chain's root/intermediate/leaf, of twin certificates (same subject and key, other serial), of unrelated and TSA certificates into named stores of the types ca/signingAuthority/tsa; statement trust-store lists with duplicates, several types, unknown and failing stores; 1-4 statements with exact/wildcard/foreign/case-variant scopes; both schemes, both envelope formats, with and without a timestamp countersignature (in-process TSA). Families: exhaustive (all lists of length<=2 (thorough <=3) over {ca:a,signingAuthority:a,tsa:a,ca:b} x 5 root placements x 2 schemes x 4 failure patterns); random scenarios (right store / wrong type / unlisted / other statement / tsa / load error); real truststore.NewX509TrustStore on a directory (fs asked from the store itself); malformed lists injected after validation (correspondence only); rare-names (store names differing by case only, leading dots, type words as names; empty vs nil slice vs nil element answers); positions (the trusted store at every list position x 13 kinds of odd element at every other position, matched chain certificate and its place inside the store rotating); statement-positions (all 24 orders of exact/wildcard/foreign/case-variant statements x which one lists the trusted store x 7 references incl. upper-case host and port); history (ONE verifier and ONE store object, 2-4 Verify calls with the store content, scheme, chain or repository changed in between; every operator after every start state in both directions plus random sequences; each step its own case). Each case runs the real verifier.Verify. non-trivial = an authenticity result exists and some chain certificate sits in some store; distinct = distinct canonical inputs"
+	w.Rule = "placements of the signing chain's root/intermediate/leaf, of twin certificates (same subject and key, other serial), of unrelated and TSA certificates into named stores of the types ca/signingAuthority/tsa; statement trust-store lists with duplicates, several types, unknown and failing stores; 1-4 statements with exact/wildcard/foreign/case-variant scopes; both schemes, both envelope formats, with and without a timestamp countersignature (in-process TSA). Families: exhaustive (all lists of length<=2 (thorough <=3) over {ca:a,signingAuthority:a,tsa:a,ca:b} x 5 root placements x 2 schemes x 4 failure patterns); random scenarios (right store / wrong type / unlisted / other statement / tsa / load error); real truststore.NewX509TrustStore on a directory (fs asked from the store itself); malformed lists injected after validation (correspondence only); rare-names (store names differing by case only, leading dots, type words as names; empty vs nil slice vs nil element answers); positions (the trusted store at every list position x 13 kinds of odd element at every other position, matched chain certificate and its place inside the store rotating); statement-positions (all 24 orders of exact/wildcard/foreign/case-variant statements x which one lists the trusted store x 7 references incl. upper-case host and port); history (ONE verifier and ONE store object, 2-4 Verify calls with the store content, scheme, chain or repository changed in between; every operator after every start state in both directions plus random sequences; each step its own case); namespaces (one verifier holding an OCI and a blob document whose statements share names, Verify and VerifyBlob alternating); blob-selection (three blob statements named P / p / P2 in every order, the trusted store listed by one of them, the global flag on none or each, called by each name, by a name nobody has, and without a name). Each case runs the real verifier.Verify or VerifyBlob. non-trivial = an authenticity result exists and some chain certificate sits in some store; distinct = distinct canonical inputs"
 	w.Assumptions = []string{
 		"certificate identity is x509.Certificate.Equal (ids assigned by Equal); notation-core-go VerifyAuthenticity is an input-independent dependency (some chain certificate Equal some trust certificate)",
 		"the trust store is a function of (type, name) during one Verify; for the real directory store its answers are obtained by direct calls before Verify",
 		"i_token is asked from tspclient-go (ParseSignedToken, Info, Validate) and chain expiry from the certificates; trusted identities are '*', signatures are intact and unexpired, no verification plugin",
+		"VerifyBlob cases are rendered as scoped statements (scope = statement name, the global statement = \"*\" when no policy is named, repository = policy name); coq/props/C03_WithC08.v proves that rendering selection-preserving w.r.t. C08's model of BlobDocument.GetApplicableTrustPolicy / GetGlobalTrustPolicy when no blob statement is named \"*\" or \"\" (the generator never does)",
 		"an unrecognized signing scheme cannot reach loadX509TrustStores through Verify (notation-core-go rejects the envelope); that branch is covered by the theorem only",
 	}
 	now := time.Now()
@@ -697,7 +698,15 @@ func runC03(a *Args) error {
 			// the statement applicable to this entry point: by name among the blob statements
 			// (rendered as scope = name), or the global one (rendered as the wildcard)
 			stmtsOfEntry, repoOfEntry = nil, c.PolicyName
+			// (this rendering is [enc] of coq/theories/C03_WithC08.v; it is selection-preserving
+			// only if no blob statement is named "*" or "", and the policy name is not blank)
+			if c.PolicyName != "" && strings.TrimSpace(c.PolicyName) == "" {
+				panic("c03: blank policy names are outside the rendering of blob statements")
+			}
 			for _, s := range c.BlobStmts {
+				if s.Name == "*" || s.Name == "" {
+					panic("c03: a blob statement named \"*\" or \"\" is outside the rendering of blob statements")
+				}
 				s.Scopes = []string{s.Name}
 				if c.PolicyName == "" && s.Global {
 					s.Scopes = []string{"*"}
@@ -1719,6 +1728,66 @@ func runC03(a *Args) error {
 						Labels: []string{"two-oci:" + kind, "entry:Verify"}})
 				}
 				runHistory(steps)
+			}
+		}
+	}
+
+	// ---------- family 8c: which BLOB statement is the applicable one ----------
+	// (C03_WithC08: the rendering of blob statements as scoped statements is selection-preserving
+	// w.r.t. BlobDocument.GetApplicableTrustPolicy / GetGlobalTrustPolicy.) ONE verifier; the blob
+	// document holds three statements whose names differ by case / by a suffix ("P", "p", "P2"), in
+	// every order; exactly one of them lists the store with the root, the others a noise store of
+	// the same type; the global flag sits on none or on each of them in turn. Calls name each
+	// statement, a name nobody has, and no name (the global statement), with one Verify on the
+	// OCI document (a statement "P" with the noise list) in between.
+	{
+		perms := [][3]int{{0, 1, 2}, {0, 2, 1}, {1, 0, 2}, {1, 2, 0}, {2, 0, 1}, {2, 1, 0}}
+		bnames := []string{"P", "p", "P2"}
+		bk := 0
+		for pi, perm := range perms {
+			for gk := 0; gk < 3; gk++ { // which statement lists the good store
+				for gi := -1; gi < 3; gi++ { // which statement is global (-1: none)
+					if a.Tier != "thorough" && gi != (pi+gk)%4-1 {
+						continue
+					}
+					bk++
+					sa := bk%2 == 1
+					req, oth := "ca", "signingAuthority"
+					if sa {
+						req, oth = oth, req
+					}
+					e := envs["n3"]
+					stores := []storeDesc{
+						{Type: req, Name: "good", Certs: []int64{idUnrelRoot, e.ids[2]}},
+						{Type: req, Name: "noise", Certs: []int64{e.twins[0], idUnrelRoot}},
+						{Type: oth, Name: "noise", Certs: []int64{e.ids[2]}},
+						{Type: "tsa", Name: "noise", Certs: []int64{e.ids[2]}},
+					}
+					var bst []stmtDesc
+					for pos := 0; pos < 3; pos++ {
+						j := perm[pos]
+						s := stmtDesc{Name: bnames[j], Level: []string{"strict", "permissive", "audit"}[(j+bk)%3], Global: j == gi, Stores: []string{req + ":noise", oth + ":noise"}}
+						if j == gk {
+							s.Stores = []string{req + ":noise", req + ":good"}
+						}
+						bst = append(bst, s)
+					}
+					ost := []stmtDesc{{Name: "P", Scopes: []string{TestScope}, Stores: []string{req + ":noise"}, Level: "strict"}}
+					calls := []string{"P", "PP", "p", "\x00oci", "", "P2", "P"}
+					var steps []*c03Case
+					for k, pn := range calls {
+						c := &c03Case{Family: "blob-selection", Chain: "n3", Format: formats[(bk+k)%2], SA: sa, Repo: TestScope, Stmts: ost, BlobStmts: bst, Stores: stores,
+							Blob: pn != "\x00oci", Labels: []string{"blobsel:good-in=" + bnames[gk], fmt.Sprintf("blobsel:global=%d", gi)}}
+						if c.Blob {
+							c.PolicyName = pn
+							c.Labels = append(c.Labels, "blobsel:call="+map[bool]string{true: "<global>", false: pn}[pn == ""])
+						} else {
+							c.Labels = append(c.Labels, "blobsel:call=<Verify>")
+						}
+						steps = append(steps, c)
+					}
+					runHistory(steps)
+				}
 			}
 		}
 	}
